@@ -26,7 +26,7 @@ for p in props:
             "evidence_file": f"/verif/evidence/{pid}.json",
             "replay_cmd_template": "/venv/bin/python check " + pid + " --replay {path}",
             "engine": "nv (ast-based static analysis: program model, CFG/dominators, def-use/origin sets, "
-                      "space+dimension typing, order taint, ninja graph model, guard dominance, schema agreement)",
+                      "space+dimension typing, order taint, ninja graph model, guard dominance, schema agreement; read on a behaviour-preserving normal form of the source, E0/E0b)",
             "level_claimed": {
                 "category": "other",
                 "text": meta["explanation"] + " Rules: " + ", ".join(rules) + ".",
@@ -56,7 +56,7 @@ m = {
          "kind_free_text": "repository-specific static analysis over Python ast: program model + call resolution (E1), statement CFG with "
                            "dominators and reaching definitions (E2), def-use and origin sets with control dependence (E3), "
                            "coordinate-space and dimension typing (E4), order/determinism taint (E5), ninja build-graph model (E6), "
-                           "guard dominance (E7), sibling/schema agreement against fontTools otData (E8), error discipline (E9)"},
+                           "guard dominance (E7), sibling/schema agreement against fontTools otData (E8), error discipline (E9); all rules read a normal form of the parsed program (E0: renames, temporaries, helper and constant inlining, control-flow restyling towards the reference spelling) and whole-tree effect fingerprints (E0b) tell a spelling-only change from a change of behaviour"},
     ],
     "checks": checks,
     "not_applicable": na,
